@@ -551,11 +551,13 @@ Section tree_proofs.
       - destruct (finish_from init HD) as (tr & c & H1 & H2 & H3 & H4 & H5 & H6 & H7).
         + apply reachable_init.
         + unfold settled. simpl. auto.
-        + exists tr, c. simpl in *. repeat split; try assumption; try lia. Show.
+        + exists tr, c. simpl in *. split; [exact H1|split; [exact H2|]].
+          repeat split; try assumption; lia.
       - destruct (finish_from (seq_state 0 N) HD) as (tr & c & H1 & H2 & H3 & H4 & H5 & H6 & H7).
         + apply seq_reach; [exact HD|lia|lia].
         + unfold settled. simpl. auto.
-        + exists tr, c. simpl in *. repeat split; assumption.
+        + exists tr, c. simpl in *. split; [exact H1|split; [exact H2|]].
+          repeat split; assumption.
     Qed.
 
     (* the first j entries succeed, the next one fails, r are never handed out *)
@@ -584,9 +586,22 @@ Section tree_proofs.
       destruct Hy as (l & c2 & Hs2 & Hse & F0 & F1 & F2 & F3 & F4).
       assert (Hr2 : reachable c2) by (eapply reachable_step; [exact Hr1|exact Hs2]).
       destruct (finish_from c2 HD Hr2 Hse) as (tr & c & H1 & H2 & H3 & H4 & H5 & H6 & H7).
-      exists tr, c. repeat split; try assumption; congruence.
+      exists tr, c. split; [exact H1|split; [exact H2|]].
+      repeat split; congruence.
     Qed.
   End seq.
+
+  Lemma exec_node_eq ch xcin tr c outs r
+      (Hsteps : steps (length ch) D S v (init (length ch) v) tr c)
+      (Hfinal : final c)
+      (Hxc : xcin = false -> xc c = false)
+      (Hch : exec_children (cancelled c) (firstn (length ch - q c) ch) outs)
+      (Hfin : count ROk outs = nfin c)
+      (Hfail : count RFail outs = nfail c)
+      (Habort : count RCancelled outs = nabort c)
+      (Hres : r = result_of (returned c)) :
+      exec (Node ch) xcin r.
+  Proof. subst r. eapply exec_node; eassumption. Qed.
 
   Lemma exec_children_app cc l1 r1 l2 r2 :
     exec_children cc l1 r1 -> exec_children cc l2 r2 -> exec_children cc (l1 ++ l2) (r1 ++ r2).
@@ -725,6 +740,80 @@ Example ex_status_short_circuit :
        L_sp_cancel] c
     /\ final c /\ err c = Some ShortCircuit /\ returned c = None /\ col c = 1.
 Proof. eexists. split; [run|]. cbv. auto 10. Qed.
+
+(* flat: a nested directory gives up because this group was cancelled by a failing sibling *)
+Example ex_commit_abort :
+  exists c,
+    steps 2 1 1 Commit (init 2 Commit)
+      [L_spawn Ded; L_spawn Shr; L_take Ded; L_take Shr; L_fail Shr; L_abort Ded; L_feed_close;
+       L_col_cancel; L_sp_stop] c
+    /\ final c /\ err c = Some EntryError /\ nfail c = 1 /\ nabort c = 1 /\ dropped c = 2.
+Proof. eexists. split; [run|]. cbv. auto 10. Qed.
+
+(* tree: [file; dir [bad file]; file] with D = 1, S = 0: the third entry is never handed out *)
+Example ex_tree_fail :
+  exec 1 0 Commit (Node [Leaf true; Node [Leaf false]; Leaf true]) false RFail.
+Proof.
+  eapply exec_node_eq with
+    (tr := [L_spawn Ded; L_take Ded; L_finish Ded; L_deliver Ded; L_take Ded; L_fail Ded;
+            L_feed_cancel; L_col_cancel; L_sp_cancel])
+    (outs := [ROk; RFail]).
+  - run.
+  - cbv. auto.
+  - intros _. reflexivity.
+  - cbv [length q Nat.sub firstn].
+    eapply ec_cons with (xci := false); [intros Hx; discriminate Hx|apply (exec_leaf 1 0 Commit true)|].
+    eapply ec_cons with (xci := false); [intros Hx; discriminate Hx| |apply ec_nil].
+    eapply exec_node_eq with
+      (tr := [L_spawn Ded; L_take Ded; L_fail Ded; L_feed_close; L_col_cancel; L_sp_stop])
+      (outs := [RFail]).
+    + run.
+    + cbv. auto.
+    + intros _. reflexivity.
+    + cbv [length q Nat.sub firstn].
+      eapply ec_cons with (xci := false);
+        [intros Hx; discriminate Hx|apply (exec_leaf 1 0 Commit false)|apply ec_nil].
+    + reflexivity.
+    + reflexivity.
+    + reflexivity.
+    + reflexivity.
+  - reflexivity.
+  - reflexivity.
+  - reflexivity.
+  - reflexivity.
+Qed.
+
+(* tree: [dir [file]; bad file] with D = 1, S = 1: both entries are in flight, the file fails,
+   the nested directory sees the cancellation of its parent's group and returns it *)
+Example ex_tree_abort :
+  exec 1 1 Commit (Node [Node [Leaf true]; Leaf false]) false RFail.
+Proof.
+  eapply exec_node_eq with
+    (tr := [L_spawn Ded; L_spawn Shr; L_take Ded; L_take Shr; L_fail Shr; L_abort Ded;
+            L_feed_close; L_col_cancel; L_sp_stop])
+    (outs := [RCancelled; RFail]).
+  - run.
+  - cbv. auto.
+  - intros _. reflexivity.
+  - cbv [length q Nat.sub firstn].
+    eapply ec_cons with (xci := true); [intros _; reflexivity| |].
+    + eapply exec_node_eq with
+        (tr := [L_ext_cancel; L_feed_cancel; L_col_cancel; L_sp_cancel]) (outs := []).
+      * run.
+      * cbv. auto.
+      * intros Hx. discriminate Hx.
+      * cbv [length q Nat.sub firstn]. apply ec_nil.
+      * reflexivity.
+      * reflexivity.
+      * reflexivity.
+      * reflexivity.
+    + eapply ec_cons with (xci := false);
+        [intros Hx; discriminate Hx|apply (exec_leaf 1 1 Commit false)|apply ec_nil].
+  - reflexivity.
+  - reflexivity.
+  - reflexivity.
+  - reflexivity.
+Qed.
 
 Print Assumptions flat_inv_reachable.
 Print Assumptions flat_terminates.
